@@ -54,6 +54,7 @@ type dtEval struct {
 	bodies [][2]token.Pos
 	// root: body of the function the row is about (for single-definition aliases of receiver fields)
 	root      ast.Node
+	keep      map[string]bool // identifiers the row's declared atoms mention: never expanded
 	freshMemo map[[2]token.Pos]bool
 	defMemo   map[types.Object]ast.Expr
 }
@@ -74,21 +75,11 @@ func (ev *dtEval) canon(x ast.Expr, fr *dtFrame) string {
 		if o != nil && o == fr.recv {
 			return "$"
 		}
-		// a local that is nothing but a name for a field of the receiver (single definition, `x := recv.f.g`) reads as that field
-		if ev.root != nil && o != nil && len(fr.subst) == 0 {
-			d, seen := ev.defMemo[o]
-			if !seen {
-				d = nil
-				if _, isVar := o.(*types.Var); isVar && o.Pos() >= ev.root.Pos() && o.Pos() < ev.root.End() {
-					if sd := an.SingleDef(fr.info, ev.root, o); sd != nil && ev.isRecvField(sd, fr) {
-						d = sd
-					}
-				}
-				ev.defMemo[o] = d
+		if d, paren := ev.aliasOf(v, fr); d != nil {
+			if paren {
+				return "(" + ev.canon(d, fr) + ")"
 			}
-			if d != nil && ev.aliasFresh(d, v, fr) {
-				return ev.canon(d, fr)
-			}
+			return ev.canon(d, fr)
 		}
 		return v.Name
 	case *ast.SelectorExpr:
@@ -163,6 +154,47 @@ func (ev *dtEval) aliasFresh(def ast.Expr, use *ast.Ident, fr *dtFrame) bool {
 	return res
 }
 
+// pureAlias: the single-definition local x names a sub-expression that was merely given a name (`cmd := value.ApplyFunction(k)`,
+// `inRange := 0 <= i && i < n`): its defining expression mentions no field of the receiver, only parameters and other
+// single-definition locals, so it denotes the same thing wherever x is used. (Expressions over receiver fields are not
+// resolved this way: such a copy is also how the code remembers an earlier state.)
+func (ev *dtEval) pureAlias(def ast.Expr, use *ast.Ident, fr *dtFrame) bool {
+	key := [2]token.Pos{def.Pos(), -use.Pos()}
+	if v, ok := ev.freshMemo[key]; ok {
+		return v
+	}
+	ok := def.Pos() < use.Pos()
+	ast.Inspect(def, func(m ast.Node) bool {
+		switch x := m.(type) {
+		case *ast.FuncLit:
+			ok = false
+			return false
+		case *ast.UnaryExpr:
+			if x.Op == token.ARROW || x.Op == token.AND {
+				ok = false
+			}
+		case *ast.Ident:
+			o := fr.info.Uses[x]
+			if o == nil {
+				return true
+			}
+			if o == fr.recv {
+				ok = false
+				return false
+			}
+			if vv, isVar := o.(*types.Var); isVar && !vv.IsField() && vv.Pkg() != nil && o.Pos() >= ev.root.Pos() && o.Pos() < ev.root.End() {
+				// a local of the function: it must itself never be reassigned
+				if an.SingleDef(fr.info, ev.root, o) == nil {
+					ok = false
+				}
+			}
+		}
+		return true
+	})
+	ev.freshMemo[key] = ok
+	return ok
+}
+
 // atomName: with occurrence numbering, base names seen at several positions get #k (k = rank of the position).
 func (ev *dtEval) atomName(base string, pos token.Pos, collecting bool) string {
 	if !ev.occ {
@@ -224,6 +256,9 @@ func (ev *dtEval) evalInt(x ast.Expr, fr *dtFrame, env *dtEnv) (int64, error) {
 	case *ast.Ident:
 		if b, ok := fr.subst[fr.info.ObjectOf(v)]; ok {
 			return ev.evalInt(b.expr, b.frame, env)
+		}
+		if d, _ := ev.aliasOf(v, fr); d != nil {
+			return ev.evalInt(d, fr, env)
 		}
 	case *ast.BinaryExpr:
 		a, err := ev.evalInt(v.X, fr, env)
@@ -364,6 +399,9 @@ func (ev *dtEval) evalBool(x ast.Expr, fr *dtFrame, env *dtEnv) (bool, error) {
 		if b, ok := fr.subst[fr.info.ObjectOf(v)]; ok {
 			return ev.evalBool(b.expr, b.frame, env)
 		}
+		if d, paren := ev.aliasOf(v, fr); d != nil && paren {
+			return ev.evalBool(d, fr, env)
+		}
 	case *ast.CallExpr:
 		// single-return predicate helper of the workspace: inline
 		if f := an.CalleeFunc(fr.info, v); f != nil {
@@ -390,7 +428,7 @@ func (ev *dtEval) evalBool(x ast.Expr, fr *dtFrame, env *dtEnv) (bool, error) {
 			// symmetric Equal
 			if f.Name() == "Equal" && len(v.Args) == 1 {
 				if sel, ok := an.Unparen(v.Fun).(*ast.SelectorExpr); ok {
-					a, b := ev.canon(sel.X, fr), ev.canon(v.Args[0], fr)
+					a, b := stripOuterParens(ev.canon(sel.X, fr)), stripOuterParens(ev.canon(v.Args[0], fr))
 					if b < a {
 						a, b = b, a
 					}
@@ -431,6 +469,25 @@ type dtGuard struct {
 	// row declares, so it is context (the loop ran its course), not part of the decision.
 	loopExit bool
 	skip     bool
+	// ranged: the guard is the entry (outcome) / exit (!outcome) edge of `for ... := range ranged`: len(ranged) > 0
+	ranged ast.Expr
+}
+
+// hasLen: a range over t runs len(t) times.
+func hasLen(t types.Type) bool {
+	if t == nil {
+		return false
+	}
+	switch u := t.Underlying().(type) {
+	case *types.Slice, *types.Map, *types.Array:
+		return true
+	case *types.Pointer:
+		_, isArr := u.Elem().Underlying().(*types.Array)
+		return isArr
+	case *types.Basic:
+		return u.Info()&types.IsString != 0
+	}
+	return false
 }
 
 func pathGuards(g *an.Graph, n ast.Node) []dtGuard {
@@ -458,8 +515,12 @@ func allPaths(g *an.Graph, n ast.Node) (paths [][]dtGuard, ok bool) {
 	}
 	target := p.Block
 	onPath := map[int32]bool{}
+	again := map[int32]bool{}
 	var cur []dtGuard
 	limit := 20000
+	isHeader := func(b *cfg.Block) bool {
+		return len(b.Succs) == 2 && (b.Kind == cfg.KindForLoop || b.Kind == cfg.KindRangeLoop)
+	}
 	var walk func(b *cfg.Block) bool
 	walk = func(b *cfg.Block) bool {
 		if int(b.Index) == target {
@@ -467,17 +528,35 @@ func allPaths(g *an.Graph, n ast.Node) (paths [][]dtGuard, ok bool) {
 			return len(paths) < limit
 		}
 		if onPath[b.Index] {
+			if dtUnroll && isHeader(b) && !again[b.Index] {
+				// the loop ran its body once: it is left now, whatever its condition says
+				again[b.Index] = true
+				cont := walk(b.Succs[1])
+				again[b.Index] = false
+				return cont
+			}
 			return true
 		}
 		onPath[b.Index] = true
 		defer func() { onPath[b.Index] = false }()
 		cd, tag := g.Cond(b)
+		var ranged ast.Expr
+		if dtUnroll && cd == nil && b.Kind == cfg.KindRangeLoop && len(b.Succs) == 2 {
+			if rs, isRange := b.Stmt.(*ast.RangeStmt); isRange && hasLen(g.Info.TypeOf(rs.X)) {
+				ranged = rs.X
+			}
+		}
 		for i, s := range b.Succs {
+			guarded := false
 			if cd != nil && len(b.Succs) == 2 {
 				cur = append(cur, dtGuard{cond: cd, tag: tag, outcome: i == 0, loopExit: i == 1 && b.Kind == cfg.KindForLoop})
+				guarded = true
+			} else if ranged != nil {
+				cur = append(cur, dtGuard{ranged: ranged, outcome: i == 0})
+				guarded = true
 			}
 			cont := walk(s)
-			if cd != nil && len(b.Succs) == 2 {
+			if guarded {
 				cur = cur[:len(cur)-1]
 			}
 			if !cont {
@@ -503,6 +582,21 @@ func (ev *dtEval) evalGuards(gs []dtGuard, fr0 *dtFrame, env *dtEnv) (bool, erro
 		fr := fr0
 		if gd.fr != nil {
 			fr = gd.fr
+		}
+		if gd.ranged != nil {
+			name := "len(" + ev.canon(gd.ranged, fr) + ")"
+			if env == nil {
+				ev.intTerms[name] = types.Typ[types.Int]
+				continue
+			}
+			val, ok := env.ints[name]
+			if !ok {
+				return false, fmt.Errorf("no value for term %s", name)
+			}
+			if (val > 0) != gd.outcome {
+				return false, nil
+			}
+			continue
 		}
 		if gd.tag != nil && !isIntLike(fr.info.TypeOf(gd.tag)) {
 			// switch over a non-integer (an error value, a string): the case test is the atom tag==case
@@ -611,4 +705,199 @@ func (env *dtEnv) String() string {
 	}
 	sort.Strings(parts)
 	return strings.Join(parts, " ")
+}
+
+// stripOuterParens removes one pair of parentheses that encloses the whole of s.
+func stripOuterParens(s string) string {
+	if len(s) < 2 || s[0] != '(' || s[len(s)-1] != ')' {
+		return s
+	}
+	depth := 0
+	for i := 0; i < len(s); i++ {
+		switch s[i] {
+		case '(':
+			depth++
+		case ')':
+			depth--
+			if depth == 0 && i != len(s)-1 {
+				return s
+			}
+		}
+	}
+	return s[1 : len(s)-1]
+}
+
+// callFree: x contains no function literal, receive or address-of (calls of methods are read like the condition itself).
+func (ev *dtEval) callFree(x ast.Expr) bool {
+	ok := true
+	ast.Inspect(x, func(m ast.Node) bool {
+		switch u := m.(type) {
+		case *ast.FuncLit:
+			ok = false
+		case *ast.UnaryExpr:
+			if u.Op == token.ARROW || u.Op == token.AND {
+				ok = false
+			}
+		}
+		return ok
+	})
+	return ok
+}
+
+// aliasOf: the definition a single-definition local of the function stands for, when reading the definition in place of
+// the local is sound at this use (nil otherwise). paren: the definition is a compound expression.
+//   - a bare field of the receiver read in the init clause of the if / switch that tests it (both passes);
+//   - second pass only: an expression over parameters and other such locals (pureAlias), any call-free expression in the
+//     init-clause form, or an expression over receiver state that nothing between the definition and the use can change
+//     (stableAlias).
+func (ev *dtEval) aliasOf(v *ast.Ident, fr *dtFrame) (def ast.Expr, paren bool) {
+	o := fr.info.ObjectOf(v)
+	if ev.root == nil || o == nil || len(fr.subst) != 0 {
+		return nil, false
+	}
+	d, seen := ev.defMemo[o]
+	if !seen {
+		d = nil
+		if _, isVar := o.(*types.Var); isVar && o.Pos() >= ev.root.Pos() && o.Pos() < ev.root.End() {
+			if sd := an.SingleDef(fr.info, ev.root, o); sd != nil {
+				d = sd
+			}
+		}
+		ev.defMemo[o] = d
+	}
+	if d == nil {
+		return nil, false
+	}
+	if ev.isRecvField(d, fr) {
+		if ev.aliasFresh(d, v, fr) {
+			return d, false
+		}
+		return nil, false
+	}
+	if dtResolvePure && !ev.keep[v.Name] && (ev.pureAlias(d, v, fr) || (ev.callFree(d) && (ev.aliasFresh(d, v, fr) || ev.stableAlias(d, v, fr)))) {
+		return d, true
+	}
+	return nil, false
+}
+
+// stableAlias: def reads receiver state, and between the definition and the use (through the end of any loop around the
+// use that does not also contain the definition) the function does nothing that could change what def denotes: no
+// assignment through the receiver, no call that is handed the receiver or one of its fields (builtins apart), no method
+// call on the receiver or its fields, no channel operation, go, defer, select, goto or function literal. Under these
+// conditions the local is only a name for the expression.
+func (ev *dtEval) stableAlias(def ast.Expr, use *ast.Ident, fr *dtFrame) bool {
+	key := [2]token.Pos{-def.Pos(), -use.Pos()}
+	if v, ok := ev.freshMemo[key]; ok {
+		return v
+	}
+	res := def.End() <= use.Pos()
+	lo, hi := def.End(), use.Pos()
+	// loops around the use that do not contain the definition
+	ast.Inspect(ev.root, func(m ast.Node) bool {
+		switch m.(type) {
+		case *ast.ForStmt, *ast.RangeStmt:
+			if m.Pos() <= use.Pos() && use.End() <= m.End() && !(m.Pos() <= def.Pos() && def.End() <= m.End()) && m.End() > hi {
+				hi = m.End()
+			}
+		}
+		return true
+	})
+	rooted := func(x ast.Expr) bool {
+		found := false
+		ast.Inspect(x, func(m ast.Node) bool {
+			if id, ok := m.(*ast.Ident); ok && fr.recv != nil && fr.info.ObjectOf(id) == fr.recv {
+				found = true
+			}
+			return !found
+		})
+		return found
+	}
+	ast.Inspect(ev.root, func(m ast.Node) bool {
+		if m == nil || !res {
+			return false
+		}
+		if m.End() <= lo || m.Pos() >= hi {
+			return m.Pos() < hi && m.End() > lo
+		}
+		switch x := m.(type) {
+		case *ast.FuncLit, *ast.GoStmt, *ast.DeferStmt, *ast.SelectStmt, *ast.SendStmt, *ast.BranchStmt:
+			if b, isBr := x.(*ast.BranchStmt); isBr && b.Tok != token.GOTO {
+				return true
+			}
+			res = false
+		case *ast.UnaryExpr:
+			if x.Op == token.ARROW || (x.Op == token.AND && rooted(x.X)) {
+				res = false
+			}
+		case *ast.AssignStmt:
+			for _, l := range x.Lhs {
+				if _, plain := an.Unparen(l).(*ast.Ident); !plain && rooted(l) {
+					// only writes that can reach what def reads matter: a different field of the receiver is harmless
+					if !ev.disjointField(l, def, fr) {
+						res = false
+					}
+				}
+			}
+		case *ast.IncDecStmt:
+			if rooted(x.X) && !ev.disjointField(x.X, def, fr) {
+				res = false
+			}
+		case *ast.CallExpr:
+			if m.Pos() < lo {
+				return true // a call that began before the definition (the definition is one of its operands)
+			}
+			if id, ok := an.Unparen(x.Fun).(*ast.Ident); ok {
+				if _, isBuiltin := fr.info.ObjectOf(id).(*types.Builtin); isBuiltin {
+					return true
+				}
+			}
+			if tv, ok := fr.info.Types[x.Fun]; ok && tv.IsType() {
+				return true // conversion
+			}
+			if rooted(x.Fun) {
+				res = false
+			}
+			for _, a := range x.Args {
+				if rooted(a) {
+					res = false
+				}
+			}
+		}
+		return res
+	})
+	ev.freshMemo[key] = res
+	return res
+}
+
+// disjointField: the assigned location lhs (rooted at the receiver) is a field that def does not mention.
+func (ev *dtEval) disjointField(lhs ast.Expr, def ast.Expr, fr *dtFrame) bool {
+	// first field selected from the receiver in lhs
+	var first *types.Var
+	ast.Inspect(lhs, func(m ast.Node) bool {
+		if sel, ok := m.(*ast.SelectorExpr); ok {
+			if id, ok := an.Unparen(sel.X).(*ast.Ident); ok && fr.recv != nil && fr.info.ObjectOf(id) == fr.recv {
+				first = an.SelectedField(fr.info, sel)
+			}
+		}
+		return true
+	})
+	if first == nil {
+		return false
+	}
+	mentioned := false
+	ast.Inspect(def, func(m ast.Node) bool {
+		if sel, ok := m.(*ast.SelectorExpr); ok {
+			if id, ok := an.Unparen(sel.X).(*ast.Ident); ok && fr.recv != nil && fr.info.ObjectOf(id) == fr.recv {
+				if f := an.SelectedField(fr.info, sel); f == nil || f == first {
+					mentioned = true
+				}
+			}
+		}
+		if id, ok := m.(*ast.Ident); ok && fr.recv != nil && fr.info.ObjectOf(id) == fr.recv {
+			// a bare use of the receiver (not through a selector) reads everything
+			_ = id
+		}
+		return true
+	})
+	return !mentioned
 }
